@@ -1,6 +1,7 @@
 import SJ.Props.C12
 import SJ.Props.StreamTyped
 import SJ.Props.StreamTypedDepth
+import SJ.Props.C12Scalar
 #print axioms SJ.Props.C12.c12_fused
 #print axioms SJ.Props.C12.c12_error_fails
 #print axioms SJ.Props.C12.c12_progress
@@ -25,3 +26,9 @@ import SJ.Props.StreamTypedDepth
 #print axioms SJ.Props.StreamTyped.c12_typed_values_agree
 #print axioms SJ.Props.StreamTypedDepth.c12_typed_items_full_budget
 #print axioms SJ.Props.StreamTypedDepth.c14_typed_stream_depth_restored
+#print axioms SJ.Props.C12Scalar.c12_undelimited_scalar_error
+#print axioms SJ.Props.C12Scalar.c12_undelimited_literal
+#print axioms SJ.Props.C12Scalar.c12_undelimited_number
+#print axioms SJ.Props.C12Scalar.next_err_cases
+#print axioms SJ.Props.C12Scalar.c12_error_offset_first_byte
+#print axioms SJ.Props.C12Scalar.c12_error_offset_first_byte_of_code
